@@ -1,7 +1,9 @@
 """C07 - containers and stores are bounded, conservative, ordered, never strand a request."""
 import re
 from harness import kprops, kbridge
-from harness.kbridge import EXTRA_MODULES, TRUSTED_EXTRA, prepare
+from harness.kbridge import TRUSTED_EXTRA
+EXTRA_MODULES = kbridge.MODULES['C07']      # this property's bridge modules only (py2lean/SCOPE.md)
+prepare = kbridge.prepare_for('C07')    # regenerates only the generated files this property owns
 from vlib.util import unbits
 ASSUMPTIONS = ['integer amounts and items; PriorityStore items are plain integers (ties are indistinguishable)',
                'filters are drawn from a family of five predicates']
